@@ -1,3 +1,61 @@
-From LC Require Import Store.
-Theorem C08_placeholder : True. Proof. exact I. Qed.
-Print Assumptions C08_placeholder.
+(* C08 — A crash at any storage write loses no script activity and leaves a usable store.
+   Model: Model/Crash.v — every sync operation as the list of its atomic database writes in program order
+   (after the repairs 823c417, 18ab572, dfad7d8, e38bc25, 00a37b0); a crash leaves the store after some prefix.
+   [Safe touch st]: every block that carries activity of a registered script and lies between the script's
+   recorded number and the filter progress is indexed already or still named by a pending record (which a
+   restart downloads and filters again).  [all_safe] ranges over EVERY prefix of an operation's writes.
+
+   - [C08_block_download_safe_at_every_write]: index each block, raise the numbers, remove the record — in that order.
+   - [C08_filter_batch_safe_at_every_write]: record and progress in one write (or, when nothing matches, numbers first).
+   - [C08_set_scripts_safe_at_every_write]: scripts, progress and dropped records in one write.
+   - [C08_old_order_unsafe]: the order before the repair (record removed first) is refuted by a witness.
+   The tie to the code is the write-order correspondence of op c08: the store observed before every write of
+   every operation equals the model's prefix states.  Hypotheses of the theorems that come from elsewhere:
+   filters have no false negatives (GCS), the rewind rule of set_scripts (C09).  First-run initialisation and
+   the tip update are single writes since 18ab572 / 823c417 (nothing to prove); the end-to-end statement
+   (restart, continued syncing, same answers) is decided by the crash-enumeration op, not by a theorem. *)
+From Coq Require Import NArith List.
+From LC Require Import Crash CrashProofs.
+Import ListNotations.
+Open Scope N_scope.
+
+Theorem C08_block_download_safe_at_every_write :
+  forall touch st start count ms,
+    Safe touch st ->
+    (forall r, In r (cs_records st) -> fst (fst r) = start -> forall b, In b (snd r) -> exists t, In (b, t) ms) ->
+    (forall b, In (b, false) ms -> forall s n, In (s, n) (cs_scripts st) -> touch b s = false) ->
+    all_safe touch (prefix_states st (complete_writes start count ms)).
+Proof. exact complete_writes_safe. Qed.
+Print Assumptions C08_block_download_safe_at_every_write.
+
+Theorem C08_filter_batch_safe_at_every_write :
+  forall touch st mem_empty start count ms,
+    Safe touch st -> start = cs_min st + 1 -> 1 <= count ->
+    (forall s n b, In (s, n) (cs_scripts st) -> touch b s = true -> start <= b <= start + count - 1 -> n < b -> In b ms) ->
+    (forall r, In r (cs_records st) -> fst (fst r) <> start) ->
+    all_safe touch (prefix_states st (batch_writes mem_empty start count ms)).
+Proof. exact batch_writes_safe. Qed.
+Print Assumptions C08_filter_batch_safe_at_every_write.
+
+Theorem C08_set_scripts_safe_at_every_write :
+  forall touch st l m genesis,
+    Safe touch st -> m <= cs_min st ->
+    (forall r, In r (cs_records st) -> forall b, In b (snd r) -> m < b) ->
+    (forall s n, In (s, n) l -> In (s, n) (cs_scripts st) \/ m <= n) ->
+    all_safe touch (prefix_states st (set_scripts_writes l (Some m) genesis)).
+Proof. exact set_scripts_writes_safe. Qed.
+Print Assumptions C08_set_scripts_safe_at_every_write.
+
+Theorem C08_old_order_unsafe :
+  exists touch st start count ms,
+    Safe touch st /\ ~ all_safe touch (prefix_states st (complete_writes_old start count ms)).
+Proof. exact complete_writes_old_unsafe. Qed.
+Print Assumptions C08_old_order_unsafe.
+
+(* the premises are satisfiable: a store with one pending record, the block it names touching the script *)
+Example C08_safe_inhabited :
+  Safe (fun b s => (b =? 3) && (s =? 0)) (mkCS [(0, 0)] 7 [(1, 7, [3])] []).
+Proof.
+  intros s n b [E|[]] Ht Hr. inversion E; subst. right. exists (1, 7, [3]). split; [left; reflexivity|].
+  apply andb_prop in Ht. destruct Ht as [Ht _]. apply N.eqb_eq in Ht. subst. left; reflexivity.
+Qed.
